@@ -159,7 +159,7 @@ pub fn run() -> i32 {
     let wrules: Vec<Vec<String>> = vec![vec![], vec!["a > e".into()], vec!["V:[+long] > [-long]".into(), "C > [+voice] / V_V".into()], vec!["% > [tone:5] / _#".into()], vec!["[+cons, -voice] > [+cont]".into()], vec!["n > ɲ / _i".into(), "t > t͡s / _a".into()]];
     let pairs: Vec<(&str, &str, &str)> = vec![
         ("stress", "ˈta.pa", "'ta.pa"), ("stress", "ˈma.ɲa", "'ma.ɲa"), ("secondary", "ˌɬa.ta", ",ɬa.ta"), ("length", "t͡saː", "t͡sa:"), ("length-break", "d͡ɮaː.ta", "d͡ɮa;ta"), ("stress", "ˈka.ni", "'ka.ni"), ("length", "taː.ni", "ta:.ni"), ("stress", "taˈpa", "ta'pa"), ("secondary", "ˌta.pa", ",ta.pa"), ("secondary", "ˈtaˌpa", "'ta,pa"), ("length", "taː.pa", "ta:.pa"), ("length", "taːː", "ta::"), ("length-break", "taː.pa", "ta;pa"),
-        ("doubled", "taː", "taa"), ("doubled", "tːa", "tta"), ("doubled", "taːːp", "taaap"), ("tie", "t͡sa", "t^sa"), ("tie", "a.d͡ʒa", "a.d^ʒa"), ("undertie", "t͡sa", "t͜sa"), ("undertie", "a.d͡ʒa", "a.d͜ʒa"),
+        ("doubled", "taː", "taa"), ("doubled", "ãːn", "ããn"), ("doubled", "atʰːa", "atʰtʰa"), ("length", "ãːn", "ã:n"), ("length-break", "kʷaː.ta", "kʷa;ta"), ("doubled", "kʷːa", "kʷkʷa"), ("doubled", "tːa", "tta"), ("doubled", "taːːp", "taaap"), ("tie", "t͡sa", "t^sa"), ("tie", "a.d͡ʒa", "a.d^ʒa"), ("undertie", "t͡sa", "t͜sa"), ("undertie", "a.d͡ʒa", "a.d͜ʒa"),
         ("alias", "ɡa", "ga"), ("alias", "ʔa", "?a"), ("alias", "ŋǃa", "ŋ!a"), ("alias", "ə", "ǝ"), ("alias", "ɸa", "φa"), ("alias", "ʃa", "Sa"), ("alias", "ʒa", "Za"), ("alias", "ɕa", "Ca"), ("alias", "ɢa", "Ga"), ("alias", "ɴa", "Na"), ("alias", "ʙa", "Ba"), ("alias", "ʀa", "Ra"), ("alias", "χa", "Xa"), ("alias", "ʜa", "Ha"), ("alias", "pɐ", "pA"), ("alias", "pɛ", "pE"), ("alias", "pɪ", "pI"), ("alias", "pɔ", "pO"), ("alias", "pʊ", "pU"), ("alias", "pʏ", "pY"),
         ("alias", "ɡ͡ba", "g͡ba"), ("alias", "aɡ.ʃa", "ag.Sa"),
     ];
